@@ -109,6 +109,9 @@ func c05Inputs() []c05Input {
 	for _, sc := range specialScenarios() {
 		out = append(out, c05Input{Name: "special: " + sc.Name, Book: renderBook(sc.Book), Log: renderLog(sc.Log)})
 	}
+	// several things wrong at once: which error is reported must not depend on anything but the inputs
+	out = append(out, c05Input{Name: "log-and-book-malformed", Book: "r1:\n  cal: many\nr2:\n  nosep\n", Log: "2021/01/24:\n  r1: lots\n  u: 1\n2021/01/25:\n  alsonosep\n"})
+	out = append(out, c05Input{Name: "log-malformed-book-cyclic", Book: "a:\n  b: 1\nb:\n  a: 1\n", Log: "2021/01/24:\n  a: x\n"})
 	for _, sh := range shapes {
 		for _, extraDepth := range []int{0, 1} {
 			lg := absLog{{Date: "2021/01/24", Entries: []absIng{{sh.book[0].Name, 1}, {"u1", 2}}}, {Date: "2021/01/25", Entries: []absIng{{sh.book[1].Name, 2}, {"u2", 2}}}}
@@ -123,6 +126,7 @@ var c05Cmds = shapeArgs(func(s cmdShape) bool { return true })
 func checkC05(w *Worker) {
 	w.appInit()
 	inputs := c05Inputs()
+	c05Schedules(w, inputs)
 	baseCache := map[string]AppRun{}
 	dev := 1
 	if w.Tier == "thorough" {
@@ -214,6 +218,56 @@ func checkC05(w *Worker) {
 				kind = "success-depends-on-map-order"
 			}
 			x.Violate("C05|"+strings.Join(c05Cmds[ci], " ")+"|"+siteFile(devSite)+"|"+kind, detail, rep)
+		}
+	})
+}
+
+// c05Schedules: every command on every input under the cooperative scheduler - goroutines the command starts, their
+// channel operations and their WaitGroups / mutexes (the rewriter routes them through the scheduler in every package of
+// the repository) become transitions, and every order of them is explored. The outcome must be the one of the plain run.
+// On a tree without goroutines in its commands this is one execution per case.
+func c05Schedules(w *Worker, inputs []c05Input) {
+	baseCache := map[string]AppRun{}
+	w.Explore("schedules", ExploreOpts{ShardDepth: 2}, func(x *Exec) {
+		x.NoConfirm = true
+		ii := x.Choose(len(inputs), "input:input")
+		ci := x.Choose(len(c05Cmds), "input:command")
+		in := inputs[ii]
+		args := append([]string{"--no-color", "--today", "2021/01/27"}, in.Extra...)
+		args = append(args, c05Cmds[ci]...)
+		c := appCase{Args: args, Files: map[string]string{"food.yaml": in.Book, "log.yaml": in.Log}, SortedMaps: true}
+		key := fmt.Sprintf("%d|%d", ii, ci)
+		base, ok := baseCache[key]
+		if !ok {
+			base = runApp(c)
+			baseCache[key] = base
+		} else {
+			logRun(c, base)
+		}
+		s := NewSched(x)
+		var r AppRun
+		finished := false
+		s.Go("main", func() {
+			r = runApp(c)
+			finished = true
+		})
+		s.Run()
+		x.Obs(r.Key(), fmt.Sprint(finished, s.Deadlock))
+		x.Case(fmt.Sprint(key, s.Trace), len(s.Trace) > 0)
+		x.Note("scheduler_transitions", int64(len(s.Trace)))
+		cname := strings.Join(c05Cmds[ci], " ")
+		rep := map[string]interface{}{"cmd": c.shell(), "schedule": s.Trace, "plain_run": base.String(), "this_schedule": r.String()}
+		switch {
+		case len(s.Panics) > 0:
+			x.Violate("C05|"+cname+"|panic-under-a-schedule", fmt.Sprintf("input %s\n`%s`\nschedule %v: %v", in.Name, c.shell(), s.Trace, s.Panics), rep)
+		case !finished:
+			x.Violate("C05|"+cname+"|does-not-terminate-under-a-schedule", fmt.Sprintf("input %s\n`%s`\nschedule %v: the command does not return (%v)", in.Name, c.shell(), s.Trace, s.ParkedAtEnd()), rep)
+		case r.Key() != base.Key():
+			kind := "output-depends-on-the-schedule"
+			if r.Failed != base.Failed {
+				kind = "success-depends-on-the-schedule"
+			}
+			x.Violate("C05|"+cname+"|"+kind, fmt.Sprintf("input %s\n`%s`\nschedule of the command's goroutines: %v\nplain run:\n%s\nunder this schedule:\n%s", in.Name, c.shell(), s.Trace, base.String(), r.String()), rep)
 		}
 	})
 }
